@@ -542,6 +542,7 @@ LINBUF_CXX_EXCLUDED = {
     "mpt::encode_array::shift": "after the fix the moved length is `done + scratch` (a sum of two unsigned state fields) against content::length() of the "
                                 "buffer found through array::data(); the engine loses the identity of that buffer across the inline accessors (not decided)",
 }
+# functions that return the inserted area for the caller to fill: [ret, ret + len) counts as written, the rest of what they add does not
 GAPFILL_EXEMPT = {"mpt_buffer_insert": "returns the inserted area", "mpt_array_insert": "returns the inserted area"}
 GLOBAL_INV = {"_mpt_buffer_alloc_psize": (0, 4 * 1024 * 1024 + 8, 8)}      # 0 (unset) or a page size of at least 8
 
@@ -858,11 +859,19 @@ def _buf_root(i):
         agg["LIN:%s:USEDCOVER" % f.name] = [cov_ok, FRef(f), f.line, cov_det, True]
     # GAPFILL: when a successful call leaves a longer used area, every byte it added was written by the call
     gap_ok, gap_det, ngap = True, "", 0
-    for st, v in (outs if f.name not in GAPFILL_EXEMPT else []):
+    for st, v in outs:
         if isinstance(v, Lin) and st.entails(-v - Lin.const(1)):
             continue
         if isinstance(v, Ptr) and v.region is None and f.T(f.ret).get("k") == "ptr":
             continue
+        handed = None
+        if f.name in GAPFILL_EXEMPT:
+            # the area the function returns for the caller to fill counts as written: [ret, ret + len)
+            lp = [p_ for p_ in f.params if p_.get("n") == "len"]
+            lv = st.env.get(("v", fr.id, lp[0]["id"])) if lp else None
+            if not (isinstance(v, Ptr) and v.region is not None and isinstance(lv, Lin)):
+                continue
+            handed = (v.region.id, v.off, v.off + lv)
         for obj, prefix, text in reachable_buffers(an, f, st, fr):
             reg = an.payload_of(st, obj, prefix)
             used = st.env.get(("f", obj, prefix + "_used"))
@@ -883,6 +892,10 @@ def _buf_root(i):
             # greedy cover of [u0, used) by the recorded write intervals
             at = u0
             ivs = list(st.env.get(("wrote", reg.id), ()))
+            if handed is not None:
+                if handed[0] != reg.id:
+                    continue
+                ivs.append((handed[1], handed[2]))
             # merge pieces that touch or overlap
             merged = True
             while merged and len(ivs) > 1:
